@@ -375,7 +375,7 @@ fn it_strategy() -> impl Strategy<Value = It> {
         2 => any::<u16>().prop_map(It::RemoveMove),
         1 => Just(It::Clone),
         1 => Just(It::Count),
-        1 => (0u8..70).prop_map(It::Nth),
+        2 => (0u8..70).prop_map(It::Nth),
         1 => Just(It::Last),
     ]
 }
